@@ -411,6 +411,22 @@ def rule_traverse(prog):
                         c.loc(bd["sp"]),
                         "field `%s` of %s can contain %s but is never read by this walker" % (f["name"], last(sp), "/".join(sorted(targets))),
                         (kind,))
+    # children are walked one by one: two child nodes of the tree that are merged into one Option *before* the walk
+    # (`i.if_branch.as_deref().or(i.else_branch.as_deref()).and_then(descend)`) leave the second unvisited whenever the first exists
+    for b, kind in walkers(prog):
+        c = b["_crate"]
+
+        def child_opt(e):
+            e_ = hir.strip(e)
+            t_ = c.tstr(e_["t"]) + "".join(c.tstr(a_["to"]) for a_ in e_.get("adj") or [])
+            reads_field = any(x.get("k") == "Field" for x in hir.nodes(e_))
+            return reads_field and "Option<" in t_ and "ast::" in t_ and "Identifier" not in t_
+
+        for mc in hir.nodes(b["body"], "MethodCall"):
+            if mc["m"] in ("or", "xor") and mc["args"] and child_opt(mc["recv"]) and child_opt(mc["args"][0]):
+                out.add(b["d"], "every child is walked for itself (children are not merged before the walk)", False, c.loc(mc["sp"]),
+                        "`a.%s(b)` on two child nodes keeps one of them: when both are present (an `if` with an `else`) only the first is "
+                        "searched, whatever the walker looks for in the second is never found" % mc["m"], (kind, "merge"))
     for k in KINDS:
         if seen_kinds.get(k, 0) == 0:
             out.missing("walkers of kind " + k)
